@@ -1472,21 +1472,23 @@ Proof.
       destruct (j - length (trials st)) as [|n]; simpl in Hj; [|destruct n; discriminate].
       inversion Hj; subst. reflexivity.
   - destruct (nth_error (trials st) i); [|inversion F; subst; auto].
-    destruct (status_eqb _ Paused); inversion F; subst; auto. simpl. apply cnt_upd; auto. apply cnt_resume.
+    destruct (status_eqb _ Paused); inversion F; subst; auto. simpl. apply cnt_upd; auto; try apply cnt_resume.
   - destruct (ids_ok (trials st) ids); [|inversion F; subst; auto].
     destruct (fetch_sim ids (trials st)) as [ts1 b] eqn:Ef.
     destruct (update_loop Sim b decs [] ts1 (out st)) as [[ts2 out2] done2] eqn:Eu.
     inversion F; subst; simpl. apply observe_cnt. eapply update_loop_cnt; [|exact Eu]. eapply fetch_sim_cnt; eauto.
   - destruct (ids_ok (trials st) ids); [|inversion F; subst; auto].
     destruct (fetch_sim ids (trials st)) as [ts1 b] eqn:Ef. inversion F; subst; simpl. eapply fetch_sim_cnt; eauto.
-  - destruct (Nat.ltb i (length (trials st))); inversion F; subst; auto. simpl. apply cnt_upd; auto. apply cnt_pause.
-  - destruct (Nat.ltb i (length (trials st))); inversion F; subst; auto. simpl. apply cnt_upd; auto. apply cnt_stop.
+  - destruct (Nat.ltb i (length (trials st))); inversion F; subst; auto. simpl. apply cnt_upd; auto; try apply cnt_pause.
+  - destruct (Nat.ltb i (length (trials st))); inversion F; subst; auto. simpl. apply cnt_upd; auto; try apply cnt_stop.
 Qed.
 
 Lemma sstep_cnt st s st' x : cnt_all (trials st) -> sstep st s = (st', x) -> cnt_all (trials st').
 Proof.
   intros H F. destruct s as [e|i all]; simpl in F; [eapply step_cnt; eauto|].
-  destruct (nth_error (trials st) i); [eapply step_cnt; eauto|inversion F; subst; auto].
+  destruct (nth_error (trials st) i) as [t|]; [|inversion F; subst; exact H].
+  destruct (status_eqb (status_of t) Paused); inversion F; subst; [|exact H].
+  simpl. apply cnt_upd; auto; try apply cnt_resume.
 Qed.
 
 Lemma srun_cnt evs : forall st st' x, cnt_all (trials st) -> srun st evs = (st', x) -> cnt_all (trials st').
